@@ -402,4 +402,274 @@ theorem ckConnFeed (cfg : ConnCfg) (count : Nat) (r : PReq) (t : Target) (h : Ha
         simpa [ckFeed_cons] using this
       · exact hdone
 
+/-! ### statuses of rejections -/
+
+/-- the statuses the framing layer rejects with -/
+def RejSt (e : Nat) : Prop := e = 400 ∨ e = 411 ∨ e = 413 ∨ e = 431 ∨ e = 501
+
+theorem reqlineUri_err {o : Opts} {r : PReq} {uri : Bytes} {e : Nat}
+    (h : reqlineUri o r uri = .error e) : e = 400 := by
+  unfold reqlineUri at h
+  simp only at h
+  repeat' split at h
+  all_goals (first | (simp at h; done) | (simp at h; omega))
+
+theorem parseReqlineCore_err {o : Opts} {line : Bytes} {e : Nat}
+    (h : parseReqlineCore o line = .error e) : e = 400 ∨ e = 501 := by
+  unfold parseReqlineCore at h
+  simp only at h
+  repeat' split at h
+  all_goals (first | (simp at h; done) | (simp at h; omega) | (exact .inl (reqlineUri_err h)))
+
+theorem parseReqline_err {o : Opts} {line blk : Bytes} {e : Nat}
+    (h : parseReqline o line blk = .error e) : e = 400 ∨ e = 501 := by
+  unfold parseReqline at h
+  split at h
+  · rename_i e' he
+    simp at h; subst h
+    exact parseReqlineCore_err he
+  · simp only at h
+    repeat' split at h
+    all_goals (first | (simp at h; done) | (simp at h; omega))
+
+theorem fieldOf_err {o : Opts} {phys : List Bytes} {e : Nat}
+    (h : fieldOf o phys = .error e) : e = 400 := by
+  unfold fieldOf at h
+  simp only at h
+  repeat' split at h
+  all_goals (first | (simp at h; done) | (simp at h; omega))
+
+theorem singleHeader_err {r : PReq} {n v : Bytes} {e : Nat}
+    (h : singleHeader r n v = .error e) : e = 400 ∨ e = 501 := by
+  unfold singleHeader at h
+  simp only at h
+  repeat' split at h
+  all_goals (first | (simp at h; done) | (simp at h; omega))
+
+theorem applyField_err {o : Opts} {r : PReq} {f : Bytes × Bytes} {e : Nat}
+    (h : applyField o r f = .error e) : e = 400 ∨ e = 501 := by
+  unfold applyField at h
+  simp only at h
+  repeat' split at h
+  all_goals (first | (simp at h; done) | (simp at h; omega) | (exact singleHeader_err h))
+
+theorem parseFieldLine_err {o : Opts} {r : PReq} {g : List Bytes} {e : Nat}
+    (h : parseFieldLine o r g = .error e) : e = 400 ∨ e = 501 := by
+  unfold parseFieldLine at h
+  split at h
+  · rename_i e' he
+    simp at h; subst h
+    exact .inl (fieldOf_err he)
+  · exact applyField_err h
+
+theorem foldl_headerStep_err (o : Opts) (gs : List (List Bytes)) : ∀ (acc : PRes) (e : Nat),
+    gs.foldl (headerStep o) acc = .error e → acc = .error e ∨ e = 400 ∨ e = 501 := by
+  induction gs with
+  | nil => intro acc e h; exact .inl h
+  | cons g rest ih =>
+    intro acc e h
+    rw [List.foldl_cons] at h
+    rcases ih _ e h with h1 | h1
+    · cases acc with
+      | error e0 => left; simpa [headerStep] using h1
+      | ok r => right; exact parseFieldLine_err (by simpa [headerStep] using h1)
+    · exact .inr h1
+
+theorem parseHeaders_err {o : Opts} {r : PReq} {lines : List Bytes} {e : Nat}
+    (h : parseHeaders o r lines = .error e) : e = 400 ∨ e = 501 := by
+  unfold parseHeaders at h
+  rcases foldl_headerStep_err o _ _ e h with h1 | h1
+  · simp at h1
+  · exact h1
+
+theorem parseTarget_err {o : Opts} {sp : Bool} {t : Bytes} {e : Nat}
+    (h : parseTarget o sp t = .error e) : e = 400 := by
+  unfold parseTarget at h
+  simp only at h
+  repeat' split at h
+  all_goals (first | (simp at h; done) | (simp at h; omega))
+
+theorem parsePost_err {o : Opts} {p : Nat} {r : PReq} {e : Nat}
+    (h : parsePost o p r = .err e) : e = 400 ∨ e = 411 := by
+  unfold parsePost at h
+  simp only at h
+  split at h
+  · rename_i e' he
+    simp at h; subst h
+    exact .inl (parseTarget_err he)
+  · repeat' split at h
+    all_goals (first | (simp at h; done) | (simp at h; omega))
+
+theorem parseHead_err {o : Opts} {mf p : Nat} {blk : Bytes} {e : Nat}
+    (h : parseHead o mf p blk = .err e) : RejSt e := by
+  unfold parseHead at h
+  split at h
+  · simp at h
+  · simp at h; subst h; unfold RejSt; omega
+  · simp at h
+  · split at h
+    · simp at h
+    · split at h
+      · rename_i e' he
+        simp at h; subst h
+        rcases parseReqline_err he with h1 | h1 <;> (unfold RejSt; omega)
+      · split at h
+        · rename_i e' he
+          simp at h; subst h
+          rcases parseHeaders_err he with h1 | h1 <;> (unfold RejSt; omega)
+        · split at h
+          · rename_i e' he
+            simp at h; subst h
+            rcases parsePost_err he with h1 | h1 <;> (unfold RejSt; omega)
+          · simp at h
+          · simp at h
+
+
+/-! ### statuses of rejections at connection level -/
+
+theorem ckParseLine_err {l : Bytes} {e : Nat} (h : ckParseLine l = .error e) : e = 400 := by
+  unfold ckParseLine at h
+  simp only at h
+  repeat' split at h
+  all_goals (first | (simp at h; done) | (simp at h; omega))
+
+theorem ckStep_err (cfg : CkCfg) (s : CkSt) (b : UInt8) (e : Nat) (hs : ∀ e0, s.mode ≠ .err e0)
+    (h : (ckStep cfg s b).mode = .err e) : e = 400 ∨ e = 413 := by
+  obtain ⟨mode, out, ka, after⟩ := s
+  cases mode with
+  | err e0 => exact absurd rfl (hs e0)
+  | hdr acc nul =>
+    simp only [ckStep] at h
+    split at h
+    · split at h
+      · rename_i e' he
+        simp at h; subst h
+        exact .inl (ckParseLine_err he)
+      · simp at h
+      · split at h
+        · simp at h; omega
+        · simp at h
+    · split at h
+      · simp at h; omega
+      · simp at h
+  | data n => simp only [ckStep] at h; split at h <;> simp at h
+  | crlf f =>
+    cases f with
+    | none => simp [ckStep] at h
+    | some a => simp only [ckStep] at h; split at h <;> simp at h; omega
+  | trailer acc off nul => simp only [ckStep] at h; repeat' split at h
+                           all_goals simp at h
+  | done => simp [ckStep] at h
+
+/-- an embedded chunked decoder is not in its error state (the automaton leaves the body phase when
+    the decoder reports an error) -/
+def ConnSt.Live (s : ConnSt) : Prop :=
+  match s.phase with
+  | .bodyCk _ _ _ ck => ∀ e, ck.mode ≠ .err e
+  | _ => True
+
+theorem respond_rej (cfg : ConnCfg) (c : Nat) (r : PReq) (t : Target) (h : Handler) (body : Bytes) (x y : Bool) :
+    (∀ st, Event.reject st ∉ (respond cfg c r t h body x y).2) ∧ (respond cfg c r t h body x y).1.Live := by
+  unfold respond
+  split <;> simp [ConnSt.Live]
+
+theorem rejectWith_rej (c e : Nat) :
+    (∀ st, Event.reject st ∈ (rejectWith c e).2 → st = e) ∧ (rejectWith c e).1.Live := by
+  simp [rejectWith, ConnSt.Live]
+
+theorem dispatch_rej (cfg : ConnCfg) (c : Nat) (blk : Bytes) :
+    (∀ st, Event.reject st ∈ (dispatch cfg c blk).2 → RejSt st) ∧ (dispatch cfg c blk).1.Live := by
+  unfold dispatch
+  split
+  · refine ⟨fun st h => ?_, (rejectWith_rej c 400).2⟩
+    rw [(rejectWith_rej c 400).1 st h]; unfold RejSt; omega
+  · refine ⟨fun st h => ?_, (rejectWith_rej c 400).2⟩
+    rw [(rejectWith_rej c 400).1 st h]; unfold RejSt; omega
+  · simp [ConnSt.Live]
+  · rename_i e he
+    refine ⟨fun st h => ?_, (rejectWith_rej c e).2⟩
+    rw [(rejectWith_rej c e).1 st h]; exact parseHead_err he
+  · simp only
+    split
+    · refine ⟨fun st h => ?_, (rejectWith_rej c 413).2⟩
+      rw [(rejectWith_rej c 413).1 st h]; unfold RejSt; omega
+    · split
+      · exact ⟨fun st h => absurd h ((respond_rej ..).1 st), (respond_rej ..).2⟩
+      · split
+        · exact ⟨fun st h => absurd h ((respond_rej ..).1 st), (respond_rej ..).2⟩
+        · split
+          · simp [ConnSt.Live]
+          · simp [ConnSt.Live]
+
+theorem headByte_rej (cfg : ConnCfg) (c : Nat) (rbuf : Bytes) (nl : Nat) (b : UInt8) :
+    (∀ st, Event.reject st ∈ (headByte cfg c rbuf nl b).2 → RejSt st) ∧ (headByte cfg c rbuf nl b).1.Live := by
+  unfold headByte
+  split
+  · refine ⟨fun st h => ?_, (rejectWith_rej c 400).2⟩
+    rw [(rejectWith_rej c 400).1 st h]; unfold RejSt; omega
+  · split
+    · exact dispatch_rej ..
+    · split
+      · refine ⟨fun st h => ?_, (rejectWith_rej c 431).2⟩
+        rw [(rejectWith_rej c 431).1 st h]; unfold RejSt; omega
+      · simp [ConnSt.Live]
+
+theorem h1Step_rej (cfg : ConnCfg) (s : ConnSt) (hs : s.Live) (b : UInt8) :
+    (∀ st, Event.reject st ∈ (h1Step cfg s b).2 → RejSt st) ∧ (h1Step cfg s b).1.Live := by
+  have r400 : ∀ c, (∀ st, Event.reject st ∈ (rejectWith c 400).2 → RejSt st) ∧ (rejectWith c 400).1.Live := by
+    intro c
+    refine ⟨fun st h => ?_, (rejectWith_rej c 400).2⟩
+    rw [(rejectWith_rej c 400).1 st h]; unfold RejSt; omega
+  obtain ⟨phase, count⟩ := s
+  cases phase with
+  | closed => simp [h1Step, ConnSt.Live]
+  | head rbuf nl bo =>
+    simp only [h1Step]
+    split
+    · split
+      · split
+        · simp [ConnSt.Live]
+        · exact headByte_rej ..
+      · split
+        · simp [ConnSt.Live]
+        · exact r400 _
+      · split
+        · exact r400 _
+        · exact headByte_rej ..
+    · exact headByte_rej ..
+  | bodyCL r t h rem racc =>
+    simp only [h1Step]
+    split
+    · exact ⟨fun st h => absurd h ((respond_rej ..).1 st), (respond_rej ..).2⟩
+    · simp [ConnSt.Live]
+  | bodyCk r t h ck =>
+    simp only [h1Step]
+    have hlive : ∀ e0, ck.mode ≠ .err e0 := by simpa [ConnSt.Live] using hs
+    split
+    · rename_i e he
+      refine ⟨fun st h => ?_, (rejectWith_rej count e).2⟩
+      rw [(rejectWith_rej count e).1 st h]
+      rcases ckStep_err (ckCfgOf cfg) ck b e hlive he with h1 | h1 <;> (unfold RejSt; omega)
+    · exact ⟨fun st h => absurd h ((respond_rej ..).1 st), (respond_rej ..).2⟩
+    · rename_i hne _
+      refine ⟨by simp, ?_⟩
+      simp only [ConnSt.Live]
+      intro e he
+      exact hne e he
+
+theorem h1Feed_rej (cfg : ConnCfg) (bs : Bytes) : ∀ (s : ConnSt), s.Live →
+    (∀ st, Event.reject st ∈ (h1Feed cfg s bs).2 → RejSt st) ∧ (h1Feed cfg s bs).1.Live := by
+  induction bs with
+  | nil => intro s hs; simp [h1Feed_nil, hs]
+  | cons b rest ih =>
+    intro s hs
+    rw [h1Feed_cons]
+    obtain ⟨h1, h2⟩ := h1Step_rej cfg s hs b
+    obtain ⟨h3, h4⟩ := ih _ h2
+    refine ⟨fun st h => ?_, h4⟩
+    simp only [List.mem_append] at h
+    rcases h with h | h
+    · exact h1 st h
+    · exact h3 st h
+
 end LtVerif
